@@ -338,7 +338,7 @@ func TestC12Encode(t *testing.T) {
 			n = 1
 		}
 		p.Payload = gen.Bytes(t, n, "payload")
-		var buf bytes.Buffer
+		var buf cappedBuffer
 		m := astits.NewMuxer(context.Background(), &buf)
 		pid := uint16(rapid.IntRange(0x20, 0x1ffe).Draw(t, "pid"))
 		if pid == 0x1000 {
